@@ -1072,8 +1072,16 @@ func c14CmpOne(c hx.Case, im, model, spec map[string]any) hx.Verdict {
 			}
 		}
 		if d := c14Diff(c, im, want, full, false); d != "" {
-			v.IS = false
-			v.Detail = "property: " + d + " " + v.Detail
+			ok := false
+			if jbool(spec, "orDead") {
+				// the spec also accepts a dead writer with nothing on the wire (refused status code in strict mode)
+				dead := map[string]any{"ran": true, "err": []any{}, "status": 200, "body": "", "panicked": true}
+				ok = c14Diff(c, im, dead, false, false) == ""
+			}
+			if !ok {
+				v.IS = false
+				v.Detail = "property: " + d + " " + v.Detail
+			}
 		}
 	}
 	return v
